@@ -30,6 +30,7 @@ for s in seeds:
                 row[c] = "INPUT"
     finally:
         subprocess.run(["git", "-C", REPO, "checkout", "--", "."])
+        subprocess.run([sys.executable, "-c", "from lib import core; core.translate()"], cwd=ROOT, capture_output=True)
     matrix[s] = row
     json.dump(matrix, open(mpath, "w"), indent=1)
     print(s, row, flush=True)
